@@ -12,6 +12,33 @@ def plan(tier, seed, ctx):
     for i, (nm, threads, epi, what) in enumerate(Q):
         queries.append({'name': nm, 'module': 'c06k', 'main': (head if i == 0 else '') + core.threaded_entry(nm, 'c06k_prologue', threads, epi),
                         'unwind': 4, 'timeout': 900 if tier == 'quick' else 3000, 'witness': 'any', 'sample': 'Tier K, ALL interleavings: ' + what})
+    # ---- API level (Tier A): real SharedFuture / SharedPromise, three observers, fulfilment kinds value / StopTag / dropped promise
+    modules['c06a'] = [('harness/C06_api.cpp', 'prod17'), ('src/algo/base_core.cpp', 'prod17'), ('src/exe/inline.cpp', 'prod17'), ('src/algo/drop_core.cpp', 'prod17')]
+    units = ['c06a_attach_a', 'c06a_attach_b', 'c06a_attach_late', 'c06a_fulfil', 'c06a_pre_attach']
+    kmax = 12 if tier == 'quick' else 16
+    ahead = core.decls(units) + 'void c06a_prologue(uint32_t, uint32_t);\nvoid c06a_epilogue(uint32_t);\n' + core.unit_selector(units)
+    # (tag, pre units, outer, inner, post units, observer mask)
+    scen = [('a_f', [], 'c06a_attach_a', 'c06a_fulfil', ['c06a_attach_late'], 0b0111), ('f_a', [], 'c06a_fulfil', 'c06a_attach_a', ['c06a_attach_late'], 0b0111),
+            ('pa_f_b', ['c06a_pre_attach', 'c06a_attach_a'], 'c06a_fulfil', 'c06a_attach_b', [], 0b1111), ('pa_b_f', ['c06a_pre_attach', 'c06a_attach_a'], 'c06a_attach_b', 'c06a_fulfil', [], 0b1111),
+            ('a_b', ['c06a_pre_attach'], 'c06a_attach_a', 'c06a_attach_b', ['c06a_fulfil'], 0b1111), ('f_late', ['c06a_attach_a'], 'c06a_fulfil', 'c06a_attach_late', [], 0b0111)]
+    firsta = True
+    for kind in ((0, 1, 2) if tier != 'quick' else (0, 2)):
+        for dfr in (0, 1):
+            for (tag, pre, outer, inner, post, mask) in scen:
+                for k in range(-1, kmax):
+                    if tier == 'quick' and k >= 0 and (dfr == 1 and tag not in ('pa_f_b', 'pa_b_f') or kind == 2 and tag not in ('a_f', 'pa_f_b')):
+                        continue
+                    nm = 'c06a_%s_%s%s_k%s' % (('val', 'stop', 'drop')[kind], tag, '_d' if dfr else '', 'none' if k < 0 else k)
+                    text = 'void %s(void) {\n  vp_spurious_cfg = 0; vp_spurious_at = -1;\n  vp_init();\n  c06a_prologue(%d, %d);\n' % (nm, kind, dfr)   # spurious weak-CAS failures of the list push: covered by the Tier K kernel
+                    text += ''.join('  %s();\n' % f for f in pre)
+                    text += '  vp_unit_sel = %d; vp_pre_k = %d; vp_pre_enabled = 1;\n  %s();\n' % (units.index(inner) + 1, k, outer)
+                    if k < 0:
+                        text += '  VP_ASSERT(vp_pre_count <= %d, "VP-BOUND: unit performs more atomic operations than there are preemption cubes");\n' % kmax
+                    text += '  vp_run_pending_unit();\n  vp_pre_enabled = 0;\n' + ''.join('  %s();\n' % f for f in post) + '  c06a_epilogue(%d);\n}\n' % mask
+                    queries.append({'name': nm, 'module': 'c06a', 'main': (ahead if firsta else '') + text, 'unwind': 8, 'timeout': 300, 'witness': 'any',
+                                    'sample': 'Tier A (API): fulfilment=%s, executor of Then(e) %s; pre=%s outer=%s inner=%s at atomic operation #%s, post=%s' % (
+                                        ('value', 'StopTag', 'promise dropped')[kind], 'deferred' if dfr else 'inline', pre, outer, inner, 'after the end' if k < 0 else k, post)})
+                    firsta = False
     meta = {
         'rule': 'One CBMC-threads query per observer mix: every interleaving of the fulfiller (Store; SetResult; list walk; 3 DecRefs) with two observers pushing onto the lock-free list '
                 '(weak CAS, spurious failure budget 1 per thread), payload symbolic.',
@@ -24,13 +51,14 @@ def plan(tier, seed, ctx):
         'explanation': 'Real code: base_core.cpp SetCallbackImpl<true>, SetInlineImpl<false,true>, SetResultImpl<false,true>, Loop/Step.',
     }
     return {'modules': modules, 'queries': queries, 'meta': meta,
-            'module_opts': {'c06k': {'nthreads': 4, 'heap': 0, 'stack': 192, 'scalar_mem': True, 'defines': ('VP_NO_ALIVE=1',)}}}
+            'module_opts': {'c06k': {'nthreads': 4, 'heap': 0, 'stack': 192, 'scalar_mem': True, 'defines': ('VP_NO_ALIVE=1',)},
+                            'c06a': {'nthreads': 2, 'heap': 2048, 'stack': 3072, 'preempt': True}}}
 
 
 MANIFEST = {
     'level_text': 'For the real shared-core list code of base_core.cpp the solver covers EVERY interleaving of one fulfiller with two observers (SetInline and SetCallback forms): each attached callback '
-                  'fires exactly once and only with the complete value, a refused attach / Ready()==true implies the value is readable intact, and SetResult releases exactly its three references.',
-    'level_note': 'Kernel level only (stub payload/refcount); the SharedFuture API wrappers and the move-for-last-observer rule are not covered. Trusted: clang -O1 IR, ir2c, rt, cbmc.',
-    'technique': 'bounded model checking of the real code under CBMC\'s partial-order thread encoding (all SC interleavings)',
+                  'fires exactly once and only with the complete value, a refused attach / Ready()==true implies the value is readable intact, and SetResult releases exactly its three references; through the public API, for every enumerated nesting of attaching observers and the fulfilment, every observer (by reference, by value, on an executor) sees the one value or the failure exactly once and the state is freed with its last handle.',
+    'level_note': 'Kernel level: all interleavings, stub payload/refcount. API level (MakeSharedContract, copies, SubscribeInline / ThenInline / Then(e), Touch, Ready; value, StopTag, dropped promise; a value type whose move marks its source): sequentialised cubes, 3-4 observers, no spurious CAS failures. Trusted: clang -O1 IR, ir2c, rt, cbmc.',
+    'technique': 'bounded model checking of the real code: CBMC partial-order thread encoding for the list kernel (all SC interleavings) + sequentialised schedule cubes over the public API',
     'design_ref': 'DESIGN.md 4 C06',
 }
